@@ -3,7 +3,7 @@ import vlib
 CFG = dict(
     imports=["From Verif.Common Require Import Labels Packet.", "From Verif.C29 Require Import Model Spec."],
     checker="check_case",
-    n=dict(quick=250, thorough=6000),
+    n=dict(quick=200, thorough=6000),
     shard=50,
     rule="per case: 3 namespaces with generated labels, 3-5 pods (labels, service account, named container ports, IPv4/IPv6), "
          "1-2 NetworkPolicies (podSelector/namespaceSelector with matchLabels and matchExpressions In/NotIn/Exists/DoesNotExist, "
@@ -18,6 +18,16 @@ CFG = dict(
                  "label keys used in selectors are not Calico-reserved (pcns./pcsa. prefixes, projectcalico.org/{namespace,orchestrator,serviceaccount,name})",
                  "policyTypes present or no egress rules (API-server defaulting); ports valid per the Kubernetes API validation"],
 )
+
+def classify(line):
+    tags = line.get("tags", [])
+    if "reserved-key" in tags:
+        return "calico-reserved-label-key"
+    if "types:absent-with-egress" in tags:
+        return "policytypes-absent-with-egress"
+    return None
+
+CFG["classify"] = classify
 
 def run(ctx):
     return vlib.standard_flow(ctx, CFG)
